@@ -202,13 +202,14 @@ func c11Direct(c *Ctx) {
 		}
 	}
 	// A5: the row key of an hbase:meta row is the region's name. Every string of length <=5
-	// over {'t', ',', 'a', '1', 00} as the key of a row whose region-info value is valid for
+	// over {'t', ',', 'a', '1', 00, ':'} as the key of a row whose region-info value is valid for
 	// table t: the row is parsed, and what the parser accepts is used as the client uses a
 	// looked-up region - put into a location cache that already knows a region of t, then
 	// looked up. Nothing of that may panic.
 	validRI, _ := proto.Marshal(&pb.RegionInfo{RegionId: proto.Uint64(9), TableName: &pb.TableName{Namespace: []byte("default"), Qualifier: []byte("t")}})
 	validVal := append([]byte("PBUF"), validRI...)
-	for _, name := range stringsUpTo([]byte{'t', ',', 'a', '1', 0}, 5) {
+	// (':' is the byte the client's own search keys end with: table,key,:)
+	for _, name := range stringsUpTo([]byte{'t', ',', 'a', '1', 0, ':'}, 5) {
 		unit := fmt.Sprintf("metarowkey|%q", name)
 		if c.Filter != "" && c.Filter != unit {
 			continue
@@ -1171,7 +1172,7 @@ func init() {
 	register(&Prop{
 		ID: "C11", Level: "fault_enumeration",
 		Technique:   "bounded exhaustive malformed-input enumeration: all short byte strings and the full boundary product of KeyValue length fields into the cellblock reader, every region-info value prefix/corruption, and structure-aware mutations / every truncation / byte flips of valid get, mutate, scan and multi response frames delivered through the real reader goroutine under the controlled scheduler",
-		Rule:        "A: all byte strings of length <=2 (thorough <=3), all strings <=6 (8) over {00,01,0e,7f,80,ff}, 10x10x10x8x6 boundary values of kvLen/keyLen/valueLen/rowLen/famLen on exact, short and two-cell buffers (capacity = length), truncations x declared counts, 60+ region-info values. B: for each of 4 response kinds ~45-60 field mutations (call id, exception parts, delimiters, cell_block_meta.length, associated_cell_count, cells_per_result vs flags, multi index / duplicate / result-and-exception / region-result count / nameless exceptions, frame length) singly (thorough: in pairs), every truncation, 5 values at every byte, damaged compressed cellblocks; frames whose counts drive allocations run in a sub-process with a 2 GiB limit. Oracle: no panic in any thread, no caller or reader stranded, later calls served or refused. Non-trivial = every malformed input. Part A also: every hbase:meta row KEY of length <=5 over {t , a 1 00} with a valid region-info value, parsed and then used like a looked-up region (put into a cache that knows a region of the table, looked up); every sequence of <=2 (thorough 3) scan-result shapes (0-2 cells, partial flag, row a/b) as a first response through the real scanner, partial results allowed or not (no panic, the scan ends). Tier W: structurally valid answers with odd contents through the public API - increment / append / get / put / check-and-put x {0-2 cells x value lengths 0,1,7,8,9; no result; no processed flag; cells in the protobuf as well as in the cellblock}: the call returns a value or an error.",
+		Rule:        "A: all byte strings of length <=2 (thorough <=3), all strings <=6 (8) over {00,01,0e,7f,80,ff}, 10x10x10x8x6 boundary values of kvLen/keyLen/valueLen/rowLen/famLen on exact, short and two-cell buffers (capacity = length), truncations x declared counts, 60+ region-info values. B: for each of 4 response kinds ~45-60 field mutations (call id, exception parts, delimiters, cell_block_meta.length, associated_cell_count, cells_per_result vs flags, multi index / duplicate / result-and-exception / region-result count / nameless exceptions, frame length) singly (thorough: in pairs), every truncation, 5 values at every byte, damaged compressed cellblocks; frames whose counts drive allocations run in a sub-process with a 2 GiB limit. Oracle: no panic in any thread, no caller or reader stranded, later calls served or refused. Non-trivial = every malformed input. Part A also: every hbase:meta row KEY of length <=5 over {t , a 1 00 :} with a valid region-info value, parsed and then used like a looked-up region (put into a cache that knows a region of the table, looked up); every sequence of <=2 (thorough 3) scan-result shapes (0-2 cells, partial flag, row a/b) as a first response through the real scanner, partial results allowed or not (no panic, the scan ends). Tier W: structurally valid answers with odd contents through the public API - increment / append / get / put / check-and-put x {0-2 cells x value lengths 0,1,7,8,9; no result; no processed flag; cells in the protobuf as well as in the cellblock}: the call returns a value or an error.",
 		Assumptions: []string{"allocation of a frame's own declared length (the 4-byte prefix) is inherent to the framing and not judged; prefixes above 1 MiB are not generated", "default thread schedule for part B (schedules are C03's subject)"},
 		Quick:       120 * time.Second, Thorough: 20 * time.Minute,
 		Units: c11Units, Direct: c11Direct,
